@@ -24,20 +24,26 @@ MANIFEST = {
 }
 RULE = (
     'Generated workflow (1-3 recurrences, offsets, absolute triggers, OR, '
-    'custom/optional outputs; optional runahead limit, PT0S retry lists, one '
-    'xtrigger whose k-th call succeeds) + outcome assignment + a history of '
-    '1-3 segments, each a list of <=14 steps ending in a `restart` step '
-    '(real `stop --now` or clean `stop`, jobs optionally progressing while '
-    'the scheduler is down with their messages lost, new Scheduler on the '
-    'same run directory), then a tail and the fair drain.  Two case kinds: '
-    '"pure" (steps loop/ret/adv/del only) and "cmd" (also hold, release, '
-    'hold-point, release-hold-point, stop-point, stop-task, trigger '
-    '--flow=new, broadcast, clear-broadcast).  Part 1, every restart of '
+    'custom/optional outputs; optional runahead limit, retry delay lists '
+    '(PT0S, or PT5S/PT3S so that tasks wait for a retry), one xtrigger '
+    'whose k-th call succeeds) + outcome assignment + a history of 1-3 '
+    'segments, each a list of <=14 steps ending in a `restart` step (real '
+    '`stop --now` or clean `stop`, jobs optionally progressing while the '
+    'scheduler is down with their messages lost, new Scheduler on the same '
+    'run directory), then a tail and the fair drain.  Two case kinds: '
+    '"pure" (steps loop / ret / adv / del / round = one round of the fair '
+    'schedule; after each restart the restart poll reports before anything '
+    'else happens) and "cmd" (also hold, release, hold-point, '
+    'release-hold-point, stop-point, stop-task, trigger --flow=new, '
+    'broadcast, clear-broadcast; free interleaving after restarts).  Part 1, '
+    'every restart of '
     'every case: pool snapshot at Scheduler.shutdown() entry == pool snapshot '
     'after start-up of the next incarnation (before its first main-loop '
     'iteration) on pool membership, status, flows, held, submit number, '
     'completed outputs, per-atom prerequisite satisfaction (as booleans), '
-    'xtrigger satisfaction, with preparing == waiting-with-the-same-next-'
+    'xtrigger satisfaction (graph xtriggers; pending retry-delay xtriggers '
+    'under a signature of their own), with preparing == '
+    'waiting-with-the-same-next-'
     'submit-number on both sides; and hold point, stop point, stop task, '
     'broadcasts, flow counter read from the scheduler objects at the same two '
     'instants.  Part 2, pure cases only: set of launched (cycle, task) '
@@ -58,6 +64,11 @@ ASSUMPTIONS = [
     'start-up of the new incarnation (before its first main-loop '
     'iteration); preparing is therefore normalised to waiting with '
     'submit number - 1 on both sides of the comparison.',
+    'The pending retry delay of a task (implemented as an internal '
+    '`_cylc_retry_*` / `_cylc_submit_retry_*` wall_clock xtrigger on the task '
+    'proxy) is compared as part of "xtrigger satisfaction" but reported '
+    'under its own signature, so that the reading "xtriggers = those '
+    'declared in the graph" can be taken by dropping that one signature.',
     'Only --flow=new is generated (no explicit flow numbers), so the flow '
     'counter equals the highest flow number ever issued; broadcasts are '
     'single-key settings (multi-key setting dicts are a C22 known finding).',
@@ -68,7 +79,15 @@ ASSUMPTIONS = [
     'with hold / trigger / stop-point ... the reference run is not '
     'comparable.  Messages are delivered in emission order per job (a custom '
     'output message overtaken by "succeeded" is lost by design, which would '
-    'make the two runs differ for a reason unrelated to the restart).',
+    'make the two runs differ for a reason unrelated to the restart); for '
+    'the same reason, in pure cases the restart poll reports before any '
+    'later job message is delivered (a "succeeded" message that beats the '
+    'restart poll completes and removes the task before the poll can '
+    'recover an optional custom output whose message was lost while the '
+    'scheduler was down).',
+    'The synthetic jobs-poll output is re-ordered to the real order '
+    '(message lines before the summary line of a job), see '
+    'vf/sim/c19_util.faithful_poll_output.',
     'A truthful poll result is never processed after a later message of the '
     'same job (pending jobs-poll commands are returned before a delivery '
     'step): late poll results are a recorded known finding of C09/C10.',
@@ -185,10 +204,16 @@ def compare_pools(before, after, where, viol, spec=None, to_int=None,
             lost.setdefault(ident, set()).update(
                 set(b['outputs']) - set(a['outputs']))
         for fld in ('status', 'flows', 'held', 'submit_num', 'outputs',
-                    'sat', 'xtriggers'):
+                    'sat', 'xtriggers', 'retry_xtriggers'):
             if b[fld] != a[fld]:
                 sig = f'C19:task-{fld}-differs'
-                if ident in stale:
+                if fld == 'retry_xtriggers':
+                    # the pending retry delay (an internal wall_clock
+                    # xtrigger on the task) - own signature, see ASSUMPTIONS
+                    sig = 'C19:retry-delay-xtrigger-not-restored'
+                    if ident in stale or b['status'] != a['status']:
+                        continue
+                elif ident in stale:
                     sig = ('C19:stale-task-pool-row:flows-merged-during-'
                            'shutdown-pool-drain')
                 elif (fld == 'outputs' and not a['outputs']
@@ -247,7 +272,6 @@ async def _run_main(case, ctx, flow_text):
         sim = sc.sim
         install_xtrigger_results(sim, case.get('xt'))
         faithful_poll_output(sim)
-        fields = {'before': [], 'after': []}
 
         drain = {}
 
